@@ -99,8 +99,11 @@ CORPUS = {
     "RS232PHY":            (lambda: uart.RS232PHY(uart.UARTPads(), 1e6, 115200), ("sys",), "quick"),
     "CSRBank":             (_csrbank, ("sys",), "quick"),
     "EventManager":        (_eventmanager, ("sys",), "thorough"),
-    "GPIOTristate-less.Out": (lambda: gpio.GPIOOut(Signal(8)), ("sys",), "thorough"),
+    "GPIOOut": (lambda: gpio.GPIOOut(Signal(8)), ("sys",), "thorough"),
 }
+
+
+WITH_MEMORY = {"SyncFIFO.buffered4", "SyncFIFO.d2", "AsyncFIFO.d4", "WishboneSRAM.burst", "WishboneCache", "AXILiteSRAM", "Decoder8b10b"}
 
 
 def _menu(sig, is_rst):
